@@ -89,13 +89,13 @@ def canon(x):
         if isinstance(x, _real_numpy.integer):
             return ("i", int(x))
         if isinstance(x, _real_numpy.floating):
-            return ("f", float(x))
+            return ("f", "nan") if x != x else ("f", float(x))
         if isinstance(x, _real_numpy.bool_):
             return ("i", int(x))
     if isinstance(x, int):
         return ("i", x)
     if isinstance(x, float):
-        return ("f", x)
+        return ("f", "nan") if x != x else ("f", x)
     if isinstance(x, dict):
         return ("d", [(canon(k), canon(v)) for k, v in x.items()])
     return ("o", type(x).__name__)
